@@ -301,10 +301,11 @@ def np_array(I, obj, dtype=None, copy=True, **kw):
         if subs and all(isinstance(x, Arr) for x in subs):
             sh = subs[0].shape
             for s in subs[1:]:
-                if Bm.shapes_equal(I, sh, s.shape) is not True:
-                    if Bm.shapes_equal(I, sh, s.shape) is False:
-                        I.throw('ValueError', 'inhomogeneous shape')
-                    raise Unsupported('stack of arrays of symbolic shapes')
+                se = Bm.shapes_equal(I, sh, s.shape)
+                if se is False:
+                    I.throw('ValueError', 'setting an array element with a sequence: inhomogeneous shape')
+                if se is not True:
+                    I.ctx.oblige('numpy.array: stacked arrays have equal shapes', zbool(se))
 
             def fn(idx):
                 i = idx[0]
@@ -314,7 +315,9 @@ def np_array(I, obj, dtype=None, copy=True, **kw):
                         r = Bm.ite(I, mk(zint(i) == j, 'bool'), subs[j].fn(idx[1:]), r)
                     return r
                 return subs[i].fn(idx[1:])
-            a = Arr((len(subs),) + tuple(sh), fn, _dt(dtype) or subs[0].dtype)
+            a = Arr((len(subs),) + tuple(sh), fn, subs[0].dtype)
+            if dtype is not None:
+                a = astype(I, a, dtype)
             return a
 
         def fn1(idx):
@@ -336,8 +339,17 @@ def np_array(I, obj, dtype=None, copy=True, **kw):
                 dt = 'int'
             elif any(x is None or isinstance(x, str) for x in subs):
                 dt = 'object'
-        a = Arr((len(subs),), fn1, dt)
+        nat = 'float'
+        if subs and all(isinstance(x, bool) or (isinstance(x, Sym) and x.kind == 'bool') for x in subs):
+            nat = 'bool'
+        elif subs and all((isinstance(x, int) and not isinstance(x, bool)) or (isinstance(x, Sym) and x.kind == 'int') for x in subs):
+            nat = 'int'
+        elif any(x is None or isinstance(x, str) for x in subs):
+            nat = 'object'
+        a = Arr((len(subs),), fn1, nat)
         a.items = subs
+        if dt is not None and dt != nat and dt != 'object':
+            a = astype(I, a, dt)
         return a
     if obj is None or isinstance(obj, str):
         return Arr((), lambda idx: obj, 'object')
@@ -465,9 +477,26 @@ def reduce_minmax(I, a, ismin):
     k = I.ctx.fresh('argm', 'int')
     I.ctx.fact(z3.And(k.e >= 0, k.e < zint(n)))
     I.ctx.fact(m.e == zreal(a.fn((k,))))
-    I.ctx.ghost.setdefault('univ', []).append(
-        (n, lambda j: (m.e <= zreal(a.fn((j,)))) if ismin else (m.e >= zreal(a.fn((j,))))))
+    f = (lambda j: (m.e <= zreal(a.fn((j,)))) if ismin else (m.e >= zreal(a.fn((j,)))))
+    add_univ(I, n, f)
+    add_witness(I, n, k)
     return m
+
+
+def add_univ(I, n, f):
+    """a universally quantified fact over indices 0 <= j < n: kept for instantiation at clause skolems, and instantiated
+    at once on every witness index known so far"""
+    g = I.ctx.ghost
+    g.setdefault('univ', []).append((n, f))
+    for (wn, w) in g.get('witness', []):
+        I.ctx.fact(z3.Implies(z3.And(zint(w) >= 0, zint(w) < zint(n)), f(w)))
+
+
+def add_witness(I, n, w):
+    g = I.ctx.ghost
+    g.setdefault('witness', []).append((n, w))
+    for (un, f) in g.get('univ', []):
+        I.ctx.fact(z3.Implies(z3.And(zint(w) >= 0, zint(w) < zint(un)), f(w)))
 
 
 def arr_getattr(I, a, name):
@@ -791,6 +820,8 @@ def make(I):
         radians=F('radians', lift1('radians', lambda I, e: I.binop('/', I.binop('*', e, PI), 180))),
         degrees=F('degrees', lift1('degrees', lambda I, e: I.binop('/', I.binop('*', e, 180), PI))),
         round=F('round', lambda I, x, *a: _unsup('np.round')), rint=F('rint', lambda I, x: _unsup('np.rint')),
+        trunc=F('trunc', lift1('trunc', lambda I, e: Bm.ite(I, I.compare('>=', e, 0), _floor(I, e), _ceil(I, e)))),
+        fix=F('fix', lift1('fix', lambda I, e: Bm.ite(I, I.compare('>=', e, 0), _floor(I, e), _ceil(I, e)))),
         maximum=F('maximum', lambda I, a, b: _lift2(I, lambda x, y: I.builtins['max'].fn(I, x, y), a, b)),
         minimum=F('minimum', lambda I, a, b: _lift2(I, lambda x, y: I.builtins['min'].fn(I, x, y), a, b)),
         where=F('where', lambda I, c, a, b: _where(I, c, a, b)),
